@@ -168,7 +168,20 @@ def snapshot(lat, cfg):
     except Exception as e:
         out['couplings'] = repr(e)
     out['mps_sites'] = len(lat.mps_sites())
+    pd = getattr(lat, 'position_disorder', None)
+    out['position_disorder'] = None if pd is None else np.asarray(pd).tolist()
     return out
+
+
+def use_disorder(cfg):
+    """the (sub)set of enlarged cases that are replayed with a position_disorder"""
+    return (cfg['cls'] in ('Chain', 'Ladder', 'Square', 'Honeycomb', 'Kagome') and cfg['ord'].get('name') == 'snakeFstyle'
+            and not any(cfg['shift']))
+
+
+def disorder_for(lat):
+    shape = tuple(lat.shape) + (lat.basis.shape[1],)
+    return (1. + np.arange(int(np.prod(shape)))).reshape(shape) / 1024.
 
 
 def build_lattice(cfg, order):
@@ -183,7 +196,7 @@ def build_lattice(cfg, order):
     if cfg.get('parent'):
         # derived lattice: build the parent (a fresh object), derive, and watch the objects that must not change
         par = build_lattice(cfg['parent'], None)
-        flags.update({k: v for k, v in getattr(par, '_verif_flags', {}).items() if not k.startswith('original_')})
+        flags.update({k: v for k, v in getattr(par, '_verif_flags', {}).items() if k == 'multi_ignores_simple_order'})
         pcfg = cfg['parent']
         via = cfg.get('via', 'none')
         before = snapshot(par, pcfg) if (cls == 'Grouped' or via in ('copy', 'segment')) else None
@@ -201,7 +214,19 @@ def build_lattice(cfg, order):
         elif via == 'copy':
             lat = par.copy()
             lat.mps_sites()  # fill the cache of the sites: it has to be invalidated by the enlargement
-            lat.enlarge_mps_unit_cell(cfg['enl'])
+            if use_disorder(cfg):
+                # a position_disorder (exact dyadic numbers, injective) has to be repeated with the unit cell
+                dis = disorder_for(par)
+                lat.position_disorder = dis
+                try:
+                    lat.enlarge_mps_unit_cell(cfg['enl'])
+                    flags['disorder'] = dis
+                except Exception as e:
+                    flags['disorder_exception'] = repr(e)
+                    lat = par.copy()  # go on without disorder so that the other queries are still checked
+                    lat.enlarge_mps_unit_cell(cfg['enl'])
+            else:
+                lat.enlarge_mps_unit_cell(cfg['enl'])
         else:
             par.mps_sites()
             par.enlarge_mps_unit_cell(cfg['enl'])
